@@ -275,3 +275,601 @@ Example amp_weighted_two_traces :
     [mkScan 0 0 [1; 100]; mkScan 1 0 [7; 1000]]
   = Some [12001 # 2].   (* ((1/2 * 1) * (2*1) + (4 * 1) * (3*1000)) / 2 *)
 Proof. vm_compute. reflexivity. Qed.
+
+(* ==========================================================================
+   PROVER ROUND — the glue around the kernels (Model/DasGlue.v; notes/prover_C02_TIE.md).
+
+   `plan c`     : a call of das.delay_and_sum described by shapes / dtypes / contiguity / option
+                  spellings / result=  ->  the FIRST exception in evaluation order (which assertion, which
+                  class), or "kernel k runs, the returned array has dtype d and is (not) the caller's
+                  object", or PUndefined (nothing is checked and the kernel would read out of bounds).
+   `das_call`   : the same call with its data: plan, the broadcast weights, the kernels of Model/Das.v and
+                  Model/Robust.v, and the writes `result[point] = ...` into a fresh or a given array.
+   Statements about plan / das_call for an arbitrary numeric instance use no algebraic law (true of floats
+   too) and are axiom-free; the statements over NumR use the standard real-number axioms. *)
+From Coq Require Import Ascii String.
+From Coq Require Import List.
+From Arim Require Import Model.DasGlue Proofs.DasGlueProofs Proofs.DasGlueRealProofs.
+Local Close Scope Q_scope.
+Local Open Scope R_scope.
+
+(* ---- dtype inference ------------------------------------------------------------------------ *)
+(* np.result_type does not depend on the order of its arguments *)
+Theorem glue_result_type_order_irrelevant : forall l l', Permutation l l' -> result_type l = result_type l'.
+Proof. exact result_type_perm. Qed.
+
+(* das._infer_datatypes in closed form: dtype_data is complex iff the (weighted) timetraces, the amplitudes or
+   `result` are, double iff one of them is; the lookup times only enter dtype_float (which nothing reads) *)
+Theorem glue_infer_datatypes_closed_form : forall wt ltx lrx amp res,
+  infer_datatypes wt ltx lrx amp res =
+  Some (promote ltx lrx, amp,
+        mk_dtype (is_cplx wt || odt is_cplx amp || odt is_cplx res) (is_dbl wt || odt is_dbl amp || odt is_dbl res)).
+Proof. exact infer_datatypes_spec. Qed.
+
+(* fresh result: np.full((numpoints,), 0, dtype) with dtype = promotion of timetraces, weights, amplitudes *)
+Theorem glue_fresh_result_dtype : forall X Y (c : call_desc X Y) k out given,
+  plan c = PRun k out given -> c_result c = None ->
+  given = false
+  /\ result_type ([fr_tt_dtype (c_frame c)]
+                  ++ (match f_w (c_focal c) with Some (_, wd) => [wd] | None => [] end)
+                  ++ (match amp_dtype (c_focal c) with Some a => [a] | None => [] end)) = Some out.
+Proof. intros X Y. exact plan_fresh_result_dtype. Qed.
+
+(* result= given: that very object is returned (its own dtype, no promotion) and it had shape (numpoints,) *)
+Theorem glue_given_result_is_returned : forall X Y (c : call_desc X Y) k out given s d,
+  plan c = PRun k out given -> c_result c = Some (s, d) ->
+  given = true /\ out = d /\ s = [a_rows (f_ltx (c_focal c))].
+Proof. intros X Y. exact plan_given_result. Qed.
+
+(* a call that returns a REAL array had real timetraces, real weights, real amplitudes and a real fillvalue
+   (otherwise numba refuses to store the complex accumulator: TypingError) *)
+Theorem glue_real_output_needs_real_inputs : forall X Y (c : call_desc X Y) k out given,
+  plan c = PRun k out given -> is_cplx out = false ->
+  is_robust k = false
+  /\ is_cplx (weighted_dtype (c_frame c) (c_focal c)) = false
+  /\ odt is_cplx (amp_dtype (c_focal c)) = false /\ c_fill_cplx c = false.
+Proof. intros X Y. exact plan_real_output. Qed.
+
+(* median / Huber run only on complex128 weighted timetraces, without amplitudes, into a complex array *)
+Theorem glue_robust_requires_complex128 : forall X Y (c : call_desc X Y) k out given,
+  plan c = PRun k out given -> is_robust k = true ->
+  weighted_dtype (c_frame c) (c_focal c) = C128 /\ f_amp (c_focal c) = FNone /\ is_cplx out = true.
+Proof. intros X Y. exact plan_robust_requires_c128. Qed.
+
+(* The guard `dtype_data != np.complex_` of the robust aggregations is computed from the promotion of the
+   weighted timetraces AND `result`.  FULL statement wanted: "a median / Huber request on timetraces that are
+   not complex128 raises NotImplementedTyping".  It is FALSE of the code when the caller passes a complex128
+   `result`: the guard lets the call through and the kernel fails inside numba (observed: SystemError).
+   Replayed on the library (notes/prover_C02_TIE.md, finding G1). *)
+Theorem glue_robust_guard_with_result_refuted :
+  exists c : call_desc unit unit,
+    weighted_dtype (c_frame c) (c_focal c) <> C128 /\ c_aggr c = PStr "median"%string
+    /\ plan c = PRaise EKernelRuntime.
+Proof. exact guard_leak_witness. Qed.
+
+(* ... characterisation of that outcome, and the guard is exact when the result is fresh *)
+Theorem glue_kernel_runtime_characterised : forall X Y (c : call_desc X Y),
+  plan c = PRaise EKernelRuntime ->
+  exists wt k, weigh_desc (c_frame c) (c_focal c) = inr (wt, fr_numtimetraces (c_frame c))
+               /\ is_robust k = true /\ wt <> C128 /\ dtype_data c wt = C128
+               /\ f_amp (c_focal c) = FNone.
+Proof. intros X Y. exact plan_kernel_runtime_inv. Qed.
+
+Theorem glue_robust_guard_exact_when_fresh : forall X Y (c : call_desc X Y),
+  c_result c = None -> plan c <> PRaise EKernelRuntime.
+Proof. intros X Y. exact plan_guard_exact_when_fresh. Qed.
+
+(* ---- which exception comes first --------------------------------------------------------------- *)
+Theorem glue_other_amplitudes_first : forall X Y (c : call_desc X Y),
+  f_amp (c_focal c) = FOther -> plan c = PRaise ENotImpl.
+Proof. intros X Y. exact plan_other_amplitudes. Qed.
+
+Theorem glue_shape_assertion_first : forall X Y (c : call_desc X Y) s,
+  f_amp (c_focal c) <> FOther ->
+  check_shapes (c_frame c) (c_focal c) = Some s -> plan c = PRaise (EAssert s).
+Proof. intros X Y. exact plan_assert_first. Qed.
+
+Theorem glue_broadcast_before_options : forall X Y (c : call_desc X Y) e,
+  f_amp (c_focal c) <> FOther ->
+  check_shapes (c_frame c) (c_focal c) = None ->
+  weigh_desc (c_frame c) (c_focal c) = inl e -> plan c = PRaise e.
+Proof. intros X Y. exact plan_weigh_error. Qed.
+
+Theorem glue_noamp_result_shape_before_options : forall X Y (c : call_desc X Y) wt wrows,
+  f_amp (c_focal c) = FNone -> prefix_ok c wt wrows -> result_shape_ok c = false ->
+  plan c = PRaise (EAssert SResultShape).
+Proof. intros X Y. exact plan_noamp_result_shape_first. Qed.
+
+Theorem glue_amp_aggregation_before_result_shape : forall X Y (c : call_desc X Y) wt wrows atx arx,
+  f_amp (c_focal c) = FTxRx atx arx -> prefix_ok c wt wrows ->
+  plan c = match c_aggr c with
+           | PStr s => if (aggr_code (lower s) =? 0)%Z then plan c else PRaise ENotImpl
+           | _ => PRaise EAttribute
+           end.
+Proof. intros X Y. exact plan_amp_aggregation_first. Qed.
+
+Theorem glue_amp_result_shape_before_interpolation : forall X Y (c : call_desc X Y) wt wrows atx arx s,
+  f_amp (c_focal c) = FTxRx atx arx -> prefix_ok c wt wrows ->
+  c_aggr c = PStr s -> lower s = "mean"%string -> result_shape_ok c = false ->
+  plan c = PRaise (EAssert SResultShape).
+Proof. intros X Y. exact plan_amp_result_shape_before_interpolation. Qed.
+
+(* once the shapes are fine the outcome is the decision table of Model/Das.v (dispatch_total above) on the
+   lowered names and on the class of dtype_data, followed by the typing / run of the chosen kernel *)
+Theorem glue_plan_refines_dispatch : forall X Y (c : call_desc X Y) wt wrows i a,
+  prefix_ok c wt wrows -> result_shape_ok c = true ->
+  to_interp_arg (c_interp c) = Some i -> to_aggr_arg (c_aggr c) = Some a ->
+  plan c = match dispatch (amp_kind_of (c_focal c)) i a (class_of (dtype_data c wt)) with
+           | Raise e => PRaise (err_of_class e)
+           | Call k => run_kernel k wt (amp_dtype (c_focal c)) (c_fill_cplx c) wrows (fr_numtimetraces (c_frame c))
+                                  (out_dtype c (dtype_data c wt)) (result_given c)
+           end.
+Proof. intros X Y. exact plan_refines_dispatch. Qed.
+
+(* everything a successful call guarantees *)
+Theorem glue_plan_success_inversion : forall X Y (c : call_desc X Y) k out given,
+  plan c = PRun k out given ->
+  check_shapes (c_frame c) (c_focal c) = None
+  /\ exists wt i a,
+       weigh_desc (c_frame c) (c_focal c) = inr (wt, fr_numtimetraces (c_frame c))
+       /\ result_shape_ok c = true /\ given = result_given c
+       /\ out = out_dtype c (dtype_data c wt)
+       /\ to_interp_arg (c_interp c) = Some i /\ to_aggr_arg (c_aggr c) = Some a
+       /\ dispatch (amp_kind_of (c_focal c)) i a (class_of (dtype_data c wt)) = Call k
+       /\ (if is_robust k then is_cplx out = true /\ (is_cplx wt = true \/ c_fill_cplx c = false) /\ wt = C128
+           else is_cplx out = true \/ value_cplx c wt = false).
+Proof. intros X Y. exact plan_run_inv. Qed.
+
+(* the kernel that runs is the one of the requested names; tuple arities are those of its signature *)
+Theorem glue_kernel_matches_request : forall am i a d k, dispatch am i a d = Call k ->
+  iname i = kernel_interp k /\ aname a = kernel_aggr k
+  /\ (is_amp_kernel k = true <-> am = AmpTxRx)
+  /\ (kernel_interp k = 2%Z -> inargs i = 1%Z)
+  /\ (k = KHuberLanczos -> anargs a = 1%Z).
+Proof. exact dispatch_call_inv. Qed.
+
+(* ---- the constructors and _check_shapes ----------------------------------------------------------- *)
+Theorem glue_txrx_dtype_checked_first : forall tx rx force,
+  r_dtype tx <> r_dtype rx -> txrx_init tx rx force = inl TDtype.
+Proof. exact txrx_dtype_first. Qed.
+
+Theorem glue_txrx_constructed : forall tx rx force a b, txrx_init tx rx force = inr (a, b) ->
+  a_dtype a = a_dtype b /\ r_shape tx = [a_rows a; a_cols a] /\ r_shape rx = [a_rows b; a_cols b]
+  /\ (force = true -> a_contig a = true /\ a_contig b = true).
+Proof. exact txrx_init_inv. Qed.
+
+Theorem glue_focal_law_constructed : forall ltx lrx amp w force fd,
+  focal_law_init ltx lrx amp w force = inr fd ->
+  a_rows (f_ltx fd) = a_rows (f_lrx fd)
+  /\ r_shape ltx = [a_rows (f_ltx fd); a_cols (f_ltx fd)]
+  /\ r_shape lrx = [a_rows (f_lrx fd); a_cols (f_lrx fd)]
+  /\ a_dtype (f_ltx fd) = r_dtype ltx /\ a_dtype (f_lrx fd) = r_dtype lrx
+  /\ (force = true -> a_contig (f_ltx fd) = true /\ a_contig (f_lrx fd) = true)
+  /\ amp_matches amp fd
+  /\ (f_w fd = None <-> w = None)
+  /\ (forall m d, f_w fd = Some (m, d) -> f_numtimetraces fd = Some m).
+Proof. exact focal_law_init_inv. Qed.
+
+(* FocalLaw.numtimetraces raises AttributeError exactly without weights and without per-timetrace amplitudes *)
+Theorem glue_numtimetraces_unknown_iff : forall ltx lrx amp w force fd,
+  focal_law_init ltx lrx amp w force = inr fd ->
+  (numtimetraces fd = None <-> w = None /\ forall s, amp <> AArr s).
+Proof. exact numtimetraces_unknown_iff. Qed.
+
+(* on objects out of the constructors (force_c_order = True) and a frame out of Frame.__init__, every assertion
+   of _check_shapes but the contiguity of frame.timetraces is redundant *)
+Theorem glue_check_shapes_after_constructors : forall ltx lrx amp w fd n ns d contig,
+  focal_law_init ltx lrx amp w true = inr fd ->
+  (forall atx arx, amp = ATxRx atx arx -> a_contig atx = true /\ a_contig arx = true) ->
+  check_shapes (frame_built n ns d contig) fd = if contig then None else Some STtContig.
+Proof. exact check_shapes_after_ctors. Qed.
+
+(* ---- timetrace weights: timetraces * w[:, np.newaxis] ---------------------------------------------- *)
+Theorem glue_weights_broadcast_rule : forall n m,
+  weighted_rows n (Some m) =
+  if ((m =? n) || (m =? 1))%nat then BRows n else if (n =? 1)%nat then BRows m else BValueError.
+Proof. exact weighted_rows_spec. Qed.
+
+(* the weights das_call applies (one per timetrace, or the single value repeated) always fit the frame *)
+Theorem glue_effective_weights_fit : forall T (N : Num T) D' (V' : Data T D') w (ss : list (scan D')),
+  exists wss, weigh_timetraces V' (effective_weights N w (length ss)) ss = Some wss /\ length wss = length ss.
+Proof. intros T N D' V'. exact (effective_weights_ok N V'). Qed.
+
+(* ---- `result`: filled by one write per point, in any order ------------------------------------------ *)
+Theorem glue_prange_any_order : forall A (order : list nat) (pix : nat -> A) prev n,
+  length prev = n -> (forall j, (j < n)%nat -> In j order) ->
+  write_pixels order pix prev = map pix (seq 0 n).
+Proof. exact @write_pixels_any_order. Qed.
+
+Theorem glue_result_filled : forall A (d : A) prev img, length prev = length img -> store d prev img = img.
+Proof. exact @store_full. Qed.
+
+(* ---- the call with its data (any numeric instance) --------------------------------------------------- *)
+(* normal form: the plan, the unchecked index condition, then one pixel per row of the focal law *)
+Theorem glue_call_normal_form : forall T D (N : Num T) (V : Data T D) view2
+    k xtol c rho ns dt t0 fill interp aggr w rows ss result,
+  das_call N V view2 k xtol c rho ns dt t0 fill interp aggr w rows ss result =
+  match plan (describe k ns interp aggr w rows ss result) with
+  | PRaise e => ORaise e
+  | PUndefined u => OUndefined u
+  | PRun kn out given =>
+      if negb (indices_ok (is_amp_kernel kn) rows ss) then OUndefined UIndex
+      else kernel_out N V view2 kn out given (first_arg 0%Z interp) (first_arg (n0 N) aggr) xtol c rho ns dt t0 fill w rows ss
+  end.
+Proof. intros T D N V view2. exact (das_call_nf N V view2). Qed.
+
+(* the previous content of a given `result` is irrelevant (the kernels fill, they never accumulate) *)
+Theorem glue_call_result_content_irrelevant : forall T D (N : Num T) (V : Data T D) view2
+    k xtol c rho ns dt t0 fill interp aggr w rows ss prev prev',
+  length prev = length prev' ->
+  das_call N V view2 k xtol c rho ns dt t0 fill interp aggr w rows ss (Some prev)
+  = das_call N V view2 k xtol c rho ns dt t0 fill interp aggr w rows ss (Some prev').
+Proof. intros T D N V view2. exact (das_call_result_content_irrelevant N V view2). Qed.
+
+Theorem glue_call_given_filled : forall T D (N : Num T) (V : Data T D) view2
+    k xtol c rho ns dt t0 fill interp aggr w rows ss prev out g img,
+  das_call N V view2 k xtol c rho ns dt t0 fill interp aggr w rows ss (Some prev) = OMean out g img ->
+  g = true /\ out = k_res_dtype k /\ length img = length prev /\ length prev = length rows.
+Proof. intros T D N V view2. exact (das_call_given_filled N V view2). Qed.
+
+(* a given and a fresh result hold the same image *)
+Theorem glue_call_given_equals_fresh : forall T D (N : Num T) (V : Data T D) view2
+    k xtol c rho ns dt t0 fill interp aggr w rows ss prev out g img out' g' img',
+  das_call N V view2 k xtol c rho ns dt t0 fill interp aggr w rows ss (Some prev) = OMean out g img ->
+  das_call N V view2 k xtol c rho ns dt t0 fill interp aggr w rows ss None = OMean out' g' img' ->
+  img = img' /\ g = true /\ g' = false.
+Proof. intros T D N V view2. exact (das_call_given_equals_fresh N V view2). Qed.
+
+(* block-wise imaging, for every kernel (mean, median, Huber) and every outcome *)
+Theorem glue_call_blockwise : forall T D (N : Num T) (V : Data T D) view2
+    k xtol c rho ns dt t0 fill interp aggr w rows1 rows2 ss,
+  das_call N V view2 k xtol c rho ns dt t0 fill interp aggr w (rows1 ++ rows2) ss None
+  = out_app (das_call N V view2 k xtol c rho ns dt t0 fill interp aggr w rows1 ss None)
+            (das_call N V view2 k xtol c rho ns dt t0 fill interp aggr w rows2 ss None).
+Proof. intros T D N V view2. exact (das_call_blockwise N V view2). Qed.
+
+(* a pixel depends on its own rows of the focal law only *)
+Theorem glue_call_pixel_independent : forall T D (N : Num T) (V : Data T D) view2
+    k xtol c rho ns dt t0 fill interp aggr w rows rows' ss out g img out' g' img' p q,
+  das_call N V view2 k xtol c rho ns dt t0 fill interp aggr w rows ss None = OMean out g img ->
+  das_call N V view2 k xtol c rho ns dt t0 fill interp aggr w rows' ss None = OMean out' g' img' ->
+  nth_error rows p = nth_error rows' q ->
+  nth_error img p = nth_error img' q.
+Proof. intros T D N V view2. exact (das_call_pixel_independent N V view2). Qed.
+
+(* a returned mean image is the output of the kernel of Model/Das.v named by the request, on the broadcast weights *)
+Theorem glue_call_mean_is_kernel : forall T D (N : Num T) (V : Data T D) view2
+    k xtol c rho ns dt t0 fill interp aggr w rows ss result out g img,
+  das_call N V view2 k xtol c rho ns dt t0 fill interp aggr w rows ss result = OMean out g img ->
+  mean_image N V k (scheme_of interp) ns dt t0 fill w rows ss = Some img
+  /\ (k_amp k = AmpTxRx -> forall a, scheme_of interp <> Lanczos a)
+  /\ k_amp k <> AmpOther.
+Proof. intros T D N V view2. exact (das_call_mean_is_kernel N V view2). Qed.
+
+(* the spelling of the option names is irrelevant (str.lower()): e.g. upper-casing them *)
+Theorem glue_call_case_insensitive : forall T D (N : Num T) (V : Data T D) view2
+    k xtol c rho ns dt t0 fill interp aggr w rows ss result,
+  das_call N V view2 k xtol c rho ns dt t0 fill (map_name upper interp) (map_name upper aggr) w rows ss result
+  = das_call N V view2 k xtol c rho ns dt t0 fill interp aggr w rows ss result.
+Proof.
+  intros T D N V view2 k xtol c rho ns dt t0 fill interp aggr w rows ss result.
+  exact (das_call_case_insensitive N V view2 k xtol c rho ns dt t0 fill interp aggr w rows ss result upper lower_upper).
+Qed.
+
+(* the dtype of the lookup-time tables is irrelevant to the outcome *)
+Theorem glue_call_lookup_dtype_irrelevant : forall T D (N : Num T) (V : Data T D) view2
+    k d1 d2 xtol c rho ns dt t0 fill interp aggr w rows ss result,
+  das_call N V view2 (set_lt k d1 d2) xtol c rho ns dt t0 fill interp aggr w rows ss result
+  = das_call N V view2 k xtol c rho ns dt t0 fill interp aggr w rows ss result.
+Proof. intros T D N V view2. exact (das_call_lookup_dtype_irrelevant N V view2). Qed.
+
+(* ---- objects: aliasing of weigh_timetraces, what a call writes, histories of calls --------------------- *)
+Theorem glue_weigh_no_weights_same_object : forall T D (V : Data T D) (h : heap D) tt a h',
+  weigh_obj V h None tt = Some (a, h') -> a = tt /\ h' = h.
+Proof. intros T D V. exact (weigh_obj_no_weights V). Qed.
+
+Theorem glue_weigh_weights_new_object : forall T D (V : Data T D) (h : heap D) ws tt a h',
+  wf_heap h -> weigh_obj V h (Some ws) tt = Some (a, h') ->
+  exists rows, h_at h tt = Some (Arr2 rows) /\ length ws = length rows
+               /\ a = h_next h /\ a <> tt /\ wf_heap h' /\ h_next h' = S (h_next h)
+               /\ h_at h' a = Some (Arr2 (scale_rows V rows ws))
+               /\ forall b, b <> a -> h_at h' b = h_at h b.
+Proof. intros T D V. exact (weigh_obj_weights V). Qed.
+
+(* one call: every object that existed and is not the caller's `result` is untouched — frame.timetraces in
+   particular, aliased by weigh_timetraces or not — and the returned array holds the image of its content *)
+Theorem glue_call_touches_result_only : forall T D (N : Num T) (V : Data T D)
+    sc ns dt t0 fill w frows tx rx tt res (h : heap D) r h' rows,
+  wf_heap h -> h_at h tt = Some (Arr2 rows) ->
+  length tx = length rows -> length rx = length rows ->
+  call_obj N V sc ns dt t0 fill w frows tx rx tt res h = Some (r, h') ->
+  wf_heap h' /\ r <> tt /\ (h_next h <= h_next h')%nat
+  /\ (forall b, b <> r -> (b < h_next h)%nat -> h_at h' b = h_at h b)
+  /\ (match res with Some r0 => r = r0 | None => (h_next h <= r)%nat end)
+  /\ exists img, das_noamp N V sc ns dt t0 fill w frows (scans_of tx rx rows) = Some img
+                 /\ h_at h' r = Some (Arr1 img).
+Proof. intros T D N V. exact (call_obj_spec N V). Qed.
+
+(* histories: whatever call came before on the same frame (weights or not, fresh or given result, any
+   options), a later call images the frame's original content *)
+Theorem glue_call_history_independent : forall T D (N : Num T) (V : Data T D)
+    sc1 ns1 dt1 t01 fill1 w1 frows1 res1 sc ns dt t0 fill w frows res tx rx tt (h : heap D) r1 h1 r h' rows,
+  wf_heap h -> h_at h tt = Some (Arr2 rows) ->
+  length tx = length rows -> length rx = length rows ->
+  call_obj N V sc1 ns1 dt1 t01 fill1 w1 frows1 tx rx tt res1 h = Some (r1, h1) ->
+  call_obj N V sc ns dt t0 fill w frows tx rx tt res h1 = Some (r, h') ->
+  h_at h' tt = Some (Arr2 rows)
+  /\ exists img, das_noamp N V sc ns dt t0 fill w frows (scans_of tx rx rows) = Some img
+                 /\ h_at h' r = Some (Arr1 img).
+Proof. intros T D N V. exact (call_obj_history N V). Qed.
+
+(* ---- over the reals ------------------------------------------------------------------------------- *)
+(* END TO END: whenever das.delay_and_sum returns a mean image — whatever the spelling of the options, the
+   dtypes, the broadcasting of the weights, a fresh or a given result — it is das_spec *)
+Theorem glue_call_mean_is_spec : forall D (V : Data R D), DataLaws V -> forall view2
+    k xtol c rho ns dt t0 fill interp aggr w rows ss result out g img,
+  das_call NumR V view2 k xtol c rho ns dt t0 fill interp aggr w rows ss result = OMean out g img ->
+  img = das_spec NumR V (scheme_of interp) (with_amp_of k) ns dt t0 fill
+                 (effective_weights NumR w (length ss)) rows ss.
+Proof. intros D V L view2. exact (das_call_mean_is_spec V L view2). Qed.
+
+(* geomed and huber_m_estimate do not depend on the order of the data ... *)
+Theorem glue_geomed_order_irrelevant : forall data data' xtol maxiter c rho, Permutation data data' ->
+  geomed NumR data xtol maxiter c rho = geomed NumR data' xtol maxiter c rho.
+Proof. exact geomed_perm. Qed.
+
+Theorem glue_huber_order_irrelevant : forall data data' tau xtol maxiter, Permutation data data' ->
+  huber_m_estimate NumR data tau xtol maxiter = huber_m_estimate NumR data' tau xtol maxiter.
+Proof. exact huber_perm. Qed.
+
+(* ... hence the whole outcome of a call (exception, mean / median / Huber image, dtype) is invariant under a
+   reordering of the timetraces, the weights reordered along (das_permutation covered the mean kernels) *)
+Theorem glue_call_permutation : forall D (V : Data R D), DataLaws V -> forall view2
+    k xtol c rho ns dt t0 fill interp aggr w w' rows ss ss' result,
+  Permutation (combine ss (applied_weights w (length ss))) (combine ss' (applied_weights w' (length ss'))) ->
+  option_map (@length R) w = option_map (@length R) w' ->
+  das_call NumR V view2 k xtol c rho ns dt t0 fill interp aggr w rows ss result
+  = das_call NumR V view2 k xtol c rho ns dt t0 fill interp aggr w' rows ss' result.
+Proof. intros D V L view2. exact (das_call_permutation V L view2). Qed.
+
+Theorem glue_applied_weights : forall w n,
+  applied_weights w n = match w with
+                        | None => repeat 1 n
+                        | Some ws => if (length ws =? n)%nat then ws else repeat (hd 0 ws) n
+                        end.
+Proof. exact applied_weights_closed. Qed.
+
+(* normalisation (the division by numtimetraces).  Every lookup outside the window: the pixel is the bare
+   fill value, with or without amplitudes and weights ... *)
+Theorem das_spec_all_outside : forall D (V : Data R D), DataLaws V -> forall sc b ns dt t0 fill w ss r,
+  ss <> [] -> weights_ok w ss = true ->
+  (forall s, In s ss -> in_window NumR sc ns (position NumR dt t0 r s) = false) ->
+  das_spec_point NumR V sc b ns dt t0 fill w ss r = fill.
+Proof. intros D V L. exact (das_spec_point_all_outside V L). Qed.
+
+(* ... constant timetraces read inside the window (nearest / linear, no weights, no amplitudes): the constant *)
+Theorem das_spec_dc_gain : forall D (V : Data R D), DataLaws V -> forall sc ns dt t0 fill ss r (c : D),
+  ss <> [] -> (forall a, sc <> Lanczos a) ->
+  (forall s, In s ss -> s_x s = repeat c (Z.to_nat ns) /\ in_window NumR sc ns (position NumR dt t0 r s) = true) ->
+  das_spec_point NumR V sc false ns dt t0 fill None ss r = c.
+Proof. intros D V L. exact (das_spec_point_dc_gain V L). Qed.
+
+(* ... and the same through the dispatcher *)
+Theorem glue_call_all_outside : forall D (V : Data R D), DataLaws V -> forall view2
+    k xtol c rho ns dt t0 fill interp aggr w rows ss result out g img,
+  das_call NumR V view2 k xtol c rho ns dt t0 fill interp aggr w rows ss result = OMean out g img ->
+  ss <> [] ->
+  (forall r s, In r rows -> In s ss -> in_window NumR (scheme_of interp) ns (position NumR dt t0 r s) = false) ->
+  img = map (fun _ => fill) rows.
+Proof. intros D V L view2. exact (das_call_all_outside V L view2). Qed.
+
+Theorem glue_call_dc_gain : forall D (V : Data R D), DataLaws V -> forall view2
+    k xtol c rho ns dt t0 fill interp aggr rows ss result out g img (v : D),
+  das_call NumR V view2 k xtol c rho ns dt t0 fill interp aggr None rows ss result = OMean out g img ->
+  ss <> [] -> k_amp k = AmpNone -> (forall a, scheme_of interp <> Lanczos a) ->
+  (forall r s, In r rows -> In s ss ->
+     s_x s = repeat v (Z.to_nat ns) /\ in_window NumR (scheme_of interp) ns (position NumR dt t0 r s) = true) ->
+  img = map (fun _ => v) rows.
+Proof. intros D V L view2. exact (das_call_dc_gain V L view2). Qed.
+
+(* ==========================================================================
+   non-vacuity of the prover-round theorems, and the replayable values of notes/prover_C02_TIE.md *)
+From Coq Require Import Lra.
+(* descriptors *)
+Definition ex_focal (amp : amp_desc) (w : option (nat * dtype)) : focal_desc :=
+  mkFocalD (mkArr2d 3 2 F64 true) (mkArr2d 3 2 F32 true) amp w (option_map fst w).
+Definition ex_desc tt ttc amp w fillc (i a : pyopt unit) res : call_desc unit unit :=
+  mkCall (frame_built 2 8 tt ttc) (ex_focal amp w) fillc i a res.
+Definition ex_txrx d := FTxRx (mkArr2d 3 2 d true) (mkArr2d 3 2 d true).
+
+Example glue_ex_result_type : result_type [F32; C64; F64] = Some C128 /\ result_type [F64; F32; C64] = Some C128
+                         /\ result_type [F32; F32] = Some F32 /\ result_type [] = None.
+Proof. repeat split. Qed.
+
+(* fresh result: complex64 timetraces with float64 weights -> complex128; float32 everywhere stays float32 *)
+Example glue_ex_plan_fresh :
+  plan (ex_desc C64 true FNone (Some (2%nat, F64)) false (PStr "Linear") (PTup "MEAN" []) None) = PRun KNoampLinear C128 false
+  /\ plan (ex_desc F32 true (ex_txrx F32) (Some (1%nat, F32)) false (PStr "nearest") (PStr "mean") None) = PRun KAmpNearest F32 false.
+Proof. split; reflexivity. Qed.
+
+Example glue_ex_plan_given :
+  plan (ex_desc C128 true FNone None true (PTup "lanczos" [tt]) (PStr "mean") (Some ([3%nat], C64))) = PRun KNoampLanczos C64 true.
+Proof. reflexivity. Qed.
+
+Example glue_ex_plan_real :
+  plan (ex_desc F32 true FNone (Some (2%nat, F64)) false (PStr "nearest") (PStr "mean") (Some ([3%nat], F32))) = PRun KNoampNearest F32 true
+  /\ plan (ex_desc F64 true FNone None true (PStr "nearest") (PStr "mean") None) = PRaise ETyping.
+Proof. split; reflexivity. Qed.
+
+Example glue_ex_plan_robust :
+  plan (ex_desc C64 true FNone (Some (2%nat, F64)) false (PTup "lanczos" [tt]) (PTup "Huber" [tt]) None) = PRun KHuberLanczos C128 false
+  /\ plan (ex_desc C64 true FNone None false (PTup "lanczos" [tt]) (PTup "Huber" [tt]) None) = PRaise ENotImplTyping.
+Proof. split; reflexivity. Qed.
+
+(* error order: everything wrong at once *)
+Example glue_ex_error_order :
+  let bad_res := Some ([5%nat], F64) in
+  (* ndarray amplitudes: NotImplementedError before any check *)
+  plan (ex_desc F64 false FOther (Some (7%nat, F64)) false PEmpty PEmpty bad_res) = PRaise ENotImpl
+  (* non-contiguous timetraces before the broadcast error, the result shape and the options *)
+  /\ plan (ex_desc F64 false FNone (Some (7%nat, F64)) false PEmpty PEmpty bad_res) = PRaise (EAssert STtContig)
+  /\ plan (ex_desc F64 true FNone (Some (7%nat, F64)) false PEmpty PEmpty bad_res) = PRaise EBroadcast
+  (* no amplitudes: result.shape before the options *)
+  /\ plan (ex_desc F64 true FNone None false PEmpty (PStr "foo") bad_res) = PRaise (EAssert SResultShape)
+  /\ plan (ex_desc F64 true FNone None false PEmpty (PStr "foo") None) = PRaise EIndex
+  /\ plan (ex_desc F64 true FNone None false (PStr "linear") (PStr "foo") None) = PRaise EUnbound
+  (* amplitudes: aggregation, then result.shape, then interpolation *)
+  /\ plan (ex_desc F64 true (ex_txrx F64) None false (PStr "foo") (PStr "median") bad_res) = PRaise ENotImpl
+  /\ plan (ex_desc F64 true (ex_txrx F64) None false (PStr "foo") (PTup "mean" []) bad_res) = PRaise EAttribute
+  /\ plan (ex_desc F64 true (ex_txrx F64) None false (PStr "foo") (PStr "Mean") bad_res) = PRaise (EAssert SResultShape)
+  /\ plan (ex_desc F64 true (ex_txrx F64) None false (PStr "foo") (PStr "Mean") None) = PRaise EValueInterp.
+Proof. repeat split. Qed.
+
+Example glue_ex_prefix_ok :
+  prefix_ok (ex_desc F64 true FNone (Some (1%nat, C64)) false (PStr "nearest") (PStr "mean") (Some ([5%nat], F64))) C128 2
+  /\ prefix_ok (ex_desc F64 true (ex_txrx F32) None false (PStr "nearest") (PStr "mean") None) F64 2.
+Proof. split; split; reflexivity. Qed.
+
+(* constructors *)
+Example glue_ex_ctors :
+  txrx_init (mkRaw [3; 2]%nat F64 false) (mkRaw [3; 2]%nat C128 true) true = inl TDtype
+  /\ txrx_init (mkRaw [3]%nat F64 true) (mkRaw [3; 2]%nat F64 true) true = inl TNdim
+  /\ txrx_init (mkRaw [3; 2]%nat F64 false) (mkRaw [3; 4]%nat F64 true) true
+     = inr (mkArr2d 3 2 F64 true, mkArr2d 3 4 F64 true)
+  /\ focal_law_init (mkRaw [3; 2]%nat F64 false) (mkRaw [3; 4]%nat F32 true)
+                    (ATxRx (mkArr2d 3 2 F64 true) (mkArr2d 3 4 F64 true)) (Some ([], F64)) true
+     = inr (mkFocalD (mkArr2d 3 2 F64 true) (mkArr2d 3 4 F32 true)
+                     (FTxRx (mkArr2d 3 2 F64 true) (mkArr2d 3 4 F64 true)) (Some (1%nat, F64)) (Some 1%nat))
+  /\ focal_law_init (mkRaw [3]%nat F64 true) (mkRaw [4; 4]%nat F32 true) ANone None true = inl LNdim
+  /\ focal_law_init (mkRaw [3; 2]%nat F64 true) (mkRaw [4; 4]%nat F32 true) ANone (Some ([2; 2]%nat, F64)) true = inl LRows
+  /\ focal_law_init (mkRaw [3; 2]%nat F64 true) (mkRaw [3; 4]%nat F32 true) ANone (Some ([2; 2]%nat, F64)) true = inl LWeightsNdim
+  /\ focal_law_init (mkRaw [3; 2]%nat F64 true) (mkRaw [3; 4]%nat F32 true)
+                    (ATxRx (mkArr2d 3 2 F64 true) (mkArr2d 3 2 F64 true)) None true = inl LAmpRx
+  /\ option_map numtimetraces
+       (match focal_law_init (mkRaw [3; 2]%nat F64 true) (mkRaw [3; 4]%nat F32 true) ANone None true with
+        | inr f => Some f | inl _ => None end) = Some None
+  /\ option_map numtimetraces
+       (match focal_law_init (mkRaw [3; 2]%nat F64 true) (mkRaw [3; 4]%nat F32 true) (AArr [3; 2]%nat) None true with
+        | inr f => Some f | inl _ => None end) = Some (Some 2%nat).
+Proof. repeat split. Qed.
+
+(* the writes: any order, repetitions allowed, previous content irrelevant *)
+Example glue_ex_prange : write_pixels [2; 0; 1; 2]%nat (fun p => (10 * p)%nat) [7; 7; 7]%nat = [0; 10; 20]%nat
+                    /\ store 0%nat [7; 7; 7]%nat [1; 2; 3]%nat = [1; 2; 3]%nat.
+Proof. repeat split. Qed.
+
+(* ---- the call with its data, exact rationals (replayed on the library: notes/prover_C02_replay.py) ---- *)
+Local Open Scope Q_scope.
+Definition ex_k (amp : amp_kind) : ctl := mkCtl F64 true F64 F64 true F64 amp F64 false F64.
+Definition ex_ss : list (scan Q) :=
+  [mkScan 0 0 [10; 20; 40; 80]; mkScan 0 1 [1; 2; 3; 4]; mkScan 1 1 [100; 200; 300; 400]; mkScan 1 0 [5; 6; 7; 8]].
+Definition ex_rows (atx arx : list Q) : list (prow Q Q) :=
+  map (fun l => mkRow [l; 0] [0; 1 # 2] atx arx) [(-1) # 2; 0; 1 # 2; 5 # 2].
+Definition ex_call k fill i a w rows ss res :=
+  das_call NumQ (DataReal NumQ) (fun x => (x, 0)) k (1 # 1000) (1 # 10) (1 # 2) 4 1 0 fill i a w rows ss res.
+
+Example glue_ex_nearest_mean :
+  ex_call (ex_k AmpNone) (-7 # 1) (PStr "nearest") (PStr "mean") None (ex_rows [] []) ex_ss None
+  = OMean F64 false [29; 29; 117 # 4; 149 # 4].
+Proof. vm_compute. reflexivity. Qed.
+
+Example glue_ex_linear_broadcast_given :
+  ex_call (ex_k AmpNone) (-7 # 1) (PStr "LINEAR") (PTup "Mean" []) (Some [2]) (ex_rows [] []) ex_ss (Some [9; 9; 9; 9])
+  = OMean F64 true [305 # 4; 333 # 4; 86; 423 # 4].
+Proof. vm_compute. reflexivity. Qed.
+
+Example glue_ex_amplitudes_weights :
+  ex_call (ex_k AmpTxRx) 0 (PStr "nearest") (PStr "mean") (Some [1; 2; 3; 4]) (ex_rows [1 # 2; 4] [1; 10]) ex_ss None
+  = OMean F64 false [12095 # 4; 12095 # 4; 12105 # 4; 3035].
+Proof. vm_compute. reflexivity. Qed.
+
+Example glue_ex_blockwise :
+  ex_call (ex_k AmpNone) (-7 # 1) (PStr "linear") (PStr "mean") None (ex_rows [] []) ex_ss None
+  = OMean F64 false [149 # 4; 333 # 8; 43; 52]
+  /\ ex_call (ex_k AmpNone) (-7 # 1) (PStr "linear") (PStr "mean") None (firstn 2 (ex_rows [] [])) ex_ss None
+     = OMean F64 false [149 # 4; 333 # 8]
+  /\ ex_call (ex_k AmpNone) (-7 # 1) (PStr "linear") (PStr "mean") None (skipn 2 (ex_rows [] [])) ex_ss None
+     = OMean F64 false [43; 52].
+Proof. repeat split; vm_compute; reflexivity. Qed.
+
+(* outcomes that are not images *)
+Example glue_ex_outcomes :
+  (* a tx index that is not a column of the tables: nothing checks it *)
+  ex_call (ex_k AmpNone) 0 (PStr "nearest") (PStr "mean") None (ex_rows [] []) (mkScan 2 0 [1; 2; 3; 4] :: ex_ss) None
+  = OUndefined UIndex
+  (* one timetrace and two weights: the product has two rows, tx and rx one entry *)
+  /\ ex_call (ex_k AmpNone) 0 (PStr "nearest") (PStr "mean") (Some [1; 2]) (ex_rows [] []) (firstn 1 ex_ss) None
+     = OUndefined UShapeDrift
+  /\ ex_call (ex_k AmpNone) 0 (PStr "nearest") (PStr "mean") (Some [1; 2; 3]) (ex_rows [] []) ex_ss None
+     = ORaise EBroadcast
+  /\ ex_call (ex_k AmpNone) 0 (PStr "nearest") (PStr "mean") None (ex_rows [] []) ex_ss (Some [9; 9; 9])
+     = ORaise (EAssert SResultShape)
+  /\ ex_call (ex_k AmpNone) 0 (PStr "nearest") (PStr "median") None (ex_rows [] []) ex_ss None
+     = ORaise ENotImplTyping
+  /\ ex_call (ex_k AmpOther) 0 (PStr "nearest") (PStr "mean") None (ex_rows [] []) ex_ss None
+     = ORaise ENotImpl.
+Proof. repeat split; vm_compute; reflexivity. Qed.
+
+(* a robust kernel through the dispatcher: complex128 data (pairs), the median of three delayed samples *)
+Definition exc_ss : list (scan (Q * Q)) :=
+  [mkScan 0 0 [(0, 0); (4, 0)]; mkScan 0 1 [(0, 0); (0, 4)]; mkScan 1 1 [(0, 0); (0, 0)]].
+Example glue_ex_median_runs :
+  match das_call NumQ (DataCplx NumQ) (fun z => z) (mkCtl C128 true F64 F64 true F64 AmpNone F64 false F64)
+                 (1 # 1000) (1 # 10) (1 # 2) 2 1 0 (0, 0) (PStr "Nearest") (PStr "Median") None
+                 [mkRow [1; 1] [0; 0] [] []] exc_ss None with
+  | ORobust C128 false [_] => true
+  | _ => false
+  end = true.
+Proof. vm_compute. reflexivity. Qed.
+
+(* objects *)
+Definition ex_heap : heap Q := mkHeap 2 (fun a => match a with
+                                                   | O => Some (Arr2 [[10; 20; 40; 80]; [1; 2; 3; 4]])
+                                                   | S O => Some (Arr1 [9; 9])
+                                                   | _ => None end).
+Definition ex_frows : list (prow Q Q) := [mkRow [0; 1] [0; 2] [] []; mkRow [1 # 2; 0] [0; 0] [] []].
+Example glue_ex_objects :
+  (* no weights, fresh result: one allocation (address 2), the frame untouched *)
+  (match call_obj NumQ (DataReal NumQ) Nearest 4 1 0 (-7 # 1) None ex_frows [0; 1]%nat [0; 1]%nat 0 None ex_heap with
+   | Some (r, h) => Some (r, h_next h, h_at h r, h_at h 0%nat)
+   | None => None end)
+  = Some (2%nat, 3%nat, Some (Arr1 [7; 11 # 2]), Some (Arr2 [[10; 20; 40; 80]; [1; 2; 3; 4]]))
+  (* weights, the caller's result at address 1: the weighted copy at address 2, the image written at 1 *)
+  /\ (match call_obj NumQ (DataReal NumQ) Nearest 4 1 0 (-7 # 1) (Some [2; 3]) ex_frows [0; 1]%nat [0; 1]%nat 0 (Some 1%nat) ex_heap with
+      | Some (r, h) => Some (r, h_next h, h_at h r, h_at h 2%nat, h_at h 0%nat)
+      | None => None end)
+     = Some (1%nat, 3%nat, Some (Arr1 [16; 23 # 2]), Some (Arr2 [[20; 40; 80; 160]; [3; 6; 9; 12]]),
+             Some (Arr2 [[10; 20; 40; 80]; [1; 2; 3; 4]])).
+Proof. split; vm_compute; reflexivity. Qed.
+Local Close Scope Q_scope.
+
+(* ---- over the reals ---------------------------------------------------------------------------- *)
+Definition exr_k : ctl := mkCtl F64 true F64 F64 true F64 AmpNone F64 false F64.
+Definition exr_ss : list (scan R) := [mkScan 0 0 [3; 3]; mkScan 0 0 [3; 3]].
+(* a call over the reals that returns a mean image (the hypothesis of the end-to-end theorems) *)
+Example glue_ex_real_call_returns :
+  exists img, das_call NumR (DataReal NumR) (fun x => (x, 0)) exr_k 1 1 1 2 1 0 (-7) (PStr "Linear") (PStr "mean") None
+                       [mkRow [1 / 2] [0] [] []] exr_ss None = OMean F64 false img.
+Proof.
+  eexists. rewrite das_call_nf.
+  replace (plan _) with (PRun KNoampLinear F64 false) by reflexivity.
+  replace (indices_ok _ _ _) with true by reflexivity.
+  reflexivity.
+Qed.
+
+(* in-window / out-of-window hypotheses are satisfiable: position 1/2 and position 10 of a 2-sample timetrace *)
+Example glue_ex_windows :
+  in_window NumR Linear 2 (position NumR 1 0 (mkRow [1 / 2] [0] ([] : list R) []) (mkScan 0 0 [3; 3])) = true
+  /\ in_window NumR Linear 2 (position NumR 1 0 (mkRow [5] [5] ([] : list R) []) (mkScan 0 0 [3; 3])) = false.
+Proof.
+  unfold in_window, position, lookup_time, getT. cbn [r_lt_tx r_lt_rx s_tx s_rx nth]. numr. change (IZR (2 - 1)) with 1. split.
+  - rewrite Rle_bool_true by lra. rewrite Rlt_bool_true by lra. reflexivity.
+  - rewrite Rle_bool_true by lra. rewrite Rlt_bool_false by lra. reflexivity.
+Qed.
+
+Example glue_ex_reordering :
+  Permutation (combine [mkScan 0 0 [1; 2]; mkScan 0 1 [3; 4]] (applied_weights (Some [2; 5]) 2))
+              (combine [mkScan 0 1 [3; 4]; mkScan 0 0 [1; 2]] (applied_weights (Some [5; 2]) 2))
+  /\ Permutation (combine [mkScan 0 0 [1; 2]; mkScan 0 1 [3; 4]] (applied_weights (Some [7]) 2))
+                 (combine [mkScan 0 1 [3; 4]; mkScan 0 0 [1; 2]] (applied_weights (Some [7]) 2)).
+Proof. rewrite !applied_weights_closed. cbn. split; apply perm_swap. Qed.
